@@ -125,6 +125,13 @@ FullAssetFails(W, a) ==
                IF q = 1 THEN doc.detail[1].run >= doc.detail[1].amt /\ (W.from = MinDay => doc.detail[1].run = doc.detail[1].amt)
                ELSE doc.detail[q].run = doc.detail[q - 1].run + doc.detail[q].amt>>,
        <<"C13.yearly_summary_shown", BagEq(doc.summary, cd.yr)>>,
+       \* ... and that summary is the fold of ALL fractions of the run dated up to the to-date (not only the ones the window shows),
+       \* for the years from the from-date's year on (not judged on the class of known finding D8)
+       <<"C13.yearly_summary_covers_whole_years_from_window_start",
+            (cd.has_all /\ ~CutAmbiguous(E, A, W.to)) =>
+               LET FS == {[ev |-> f[1], lot |-> f[2], amt |-> f[3], proc |-> f[4], cost |-> f[5], gain |-> f[6], long |-> f[7]] :
+                            f \in {g \in ToSet(cd.fr_all) : g[1] \in A /\ Day(E[g[1]]) <= W.to}}
+               IN ToSet(doc.summary) = Summary(E, FS, FromYear(W.from)) /\ NoRepeat(doc.summary)>>,
        <<"C13.account_balances_shown", BagEq(doc.balances, cd.bal)>>,
        <<"C13.holder_totals_add_up",
             LET holders == {HolderOf(cd.bal[i][1]) : i \in 1..Len(cd.bal)}
